@@ -179,7 +179,7 @@ def make_sessions(ctx, n):
         a, b, fn, args = [], [], None, None
         if k in ("one", "two"):
             large = sid % 20 in (1, 5, 6, 10)              # samples far beyond the exhaustive bounds (size thresholds, bulk code paths)
-            a = zipf_sample(ctx.rng, ctx.rng.choice([1030, 2500, 5000]) if large else ctx.rng.randint(2, 40), ctx.rng.randint(1, 12))
+            a = zipf_sample(ctx.rng, ctx.rng.choice([1025, 2049, 4097, 5000]) if large else ctx.rng.randint(2, 40), ctx.rng.randint(1, 12))
             vk = ctx.rng.choice(["int", "float", "oddint", "oddfloat"])
             if k == "two":
                 b = zipf_sample(ctx.rng, ctx.rng.choice([700, 3000]) if large else ctx.rng.randint(1, 40), ctx.rng.randint(1, 12))
